@@ -41,10 +41,10 @@ pub struct Acc {
     pub sample: Option<Value>,
 }
 impl Acc {
-    fn c(&mut self, k: &str) {
+    pub fn c(&mut self, k: &str) {
         *self.counters.entry(k.to_string()).or_insert(0) += 1;
     }
-    fn m(&mut self, strategy: &str, site: &str, outcome: &str) {
+    pub fn m(&mut self, strategy: &str, site: &str, outcome: &str) {
         *self.matrix.entry(format!("{strategy} | {site} | {outcome}")).or_insert(0) += 1;
         self.keys.push(format!("{strategy}|{site}"));
     }
@@ -240,7 +240,7 @@ fn copy_constrained_cells(ctx: &SatCtx, rep_map: &[usize]) -> Vec<(usize, usize)
     v
 }
 
-fn record<C: GenericConfig<D, F = F>>(acc: &mut Acc, s: &Subject<C>, strategy: &str, site: &str, violating: bool, outcome: &Outcome, case: u64, detail: Value) {
+pub fn record<C: GenericConfig<D, F = F>>(acc: &mut Acc, s: &Subject<C>, strategy: &str, site: &str, violating: bool, outcome: &Outcome, case: u64, detail: Value) {
     acc.evals += 1;
     acc.m(strategy, site, &outcome.label());
     let accepted = matches!(outcome, Outcome::Accepted);
@@ -610,7 +610,7 @@ pub fn case_b<C: GenericConfig<D, F = F>>(seed: u64, case: u64, quick: bool) -> 
     acc
 }
 
-fn merge(run: &mut Run, case: u64, acc: Acc, matrix: &mut BTreeMap<String, u64>) {
+pub fn merge(run: &mut Run, case: u64, acc: Acc, matrix: &mut BTreeMap<String, u64>) {
     run.evals(acc.evals);
     for (k, v) in acc.counters {
         run.count(&k, v);
